@@ -5,6 +5,8 @@ package main
 // c08.go        generic engine: one sigma protocol (any X/W/A/S/Z) through the sigma level, the
 //               simulator, the extractor, the three non-interactive compilers, the interactive ZK
 //               compiler, context variations and proof-byte mutations.
+// c08_adv.go    adversarial provers: component-count attacks, witness-free forgeries (simulator,
+//               grinding), statement substitution, cross-protocol replay — for every compiler.
 // c08_curve.go  the protocol instances over elliptic-curve groups and their line encodings.
 // c08_int.go    integer-group instances (Paillier n-th root …).
 
